@@ -1050,6 +1050,15 @@ func (p *Parser) evaluateVarDefinition(ctx context) (Statement, error) {
 		if alreadyDefined == nameTokensLength {
 			return nil, p.atError("no new variables", firstNameToken)
 		}
+
+		// A definition lists every name once.
+		for i, nameToken := range nameTokens {
+			for _, otherToken := range nameTokens[:i] {
+				if otherToken.Value() == nameToken.Value() {
+					return nil, p.atError(fmt.Sprintf("variable %s has already been defined", nameToken.Value()), nameToken)
+				}
+			}
+		}
 	} else {
 		err := p.checkNewVariableNameToken(firstNameToken, ctx)
 
